@@ -3371,26 +3371,67 @@ func ruleSyncJoinsItsInputs(c *Ctx, rule string) {
 			if neg {
 				syncEdge = b.Succs[0]
 			}
-			// the sync edge returns at once ...
+			// the sync edge returns at once ... (straight-line code only: loads, stores of spilled variables, jumps)
+			if len(syncEdge.Preds) != 1 {
+				continue
+			}
 			var ret *ssa.Return
 			bare := true
-			for _, in := range syncEdge.Instrs {
-				switch x := in.(type) {
-				case *ssa.Return:
-					ret = x
-				case *ssa.IndexAddr, *ssa.UnOp, *ssa.DebugRef:
-				default:
-					bare = false
+			path := []*ssa.BasicBlock{}
+			stored := map[*ssa.Alloc]ssa.Value{}
+			for cur, steps := syncEdge, 0; cur != nil && steps < 4 && ret == nil && bare; steps++ {
+				path = append(path, cur)
+				var next *ssa.BasicBlock
+				for _, in := range cur.Instrs {
+					switch x := in.(type) {
+					case *ssa.Return:
+						ret = x
+					case *ssa.Jump:
+						next = cur.Succs[0]
+					case *ssa.Store:
+						if al, isA := x.Addr.(*ssa.Alloc); isA {
+							stored[al] = x.Val
+						} else {
+							bare = false
+						}
+					case *ssa.IndexAddr, *ssa.UnOp, *ssa.DebugRef, *ssa.Phi, *ssa.RunDefers:
+					default:
+						bare = false
+					}
 				}
+				cur = next
 			}
-			if ret == nil || !bare || len(ret.Results) != 1 || len(syncEdge.Preds) != 1 {
+			if ret == nil || !bare || len(ret.Results) != 1 {
 				continue
 			}
 			// ... the candidate under examination: an element of a local []int list, loaded in the test's block or in the
 			// returning block (nothing else was asked about this candidate before)
-			ld, isLd := ret.Results[0].(*ssa.UnOp)
+			rv := ret.Results[0]
+			if ph, isPhi := rv.(*ssa.Phi); isPhi && len(path) >= 2 {
+				for k, pred := range ph.Block().Preds {
+					if pred == path[len(path)-2] {
+						rv = ph.Edges[k]
+					}
+				}
+			}
+			if ld0, isLd := rv.(*ssa.UnOp); isLd && ld0.Op == token.MUL {
+				if al, isA := ld0.X.(*ssa.Alloc); isA {
+					if v, okS := stored[al]; okS {
+						rv = v
+					}
+				}
+			}
+			// the loop variable itself may be spilled (a range-over-func body elsewhere in the function captures it)
+			if ld0, isLd := rv.(*ssa.UnOp); isLd && ld0.Op == token.MUL {
+				if al, isA := ld0.X.(*ssa.Alloc); isA {
+					if sts := storesTo(al); len(sts) == 1 {
+						rv = sts[0].Val
+					}
+				}
+			}
+			ld, isLd := rv.(*ssa.UnOp)
 			if !isLd || ld.Op != token.MUL {
-				detail = append(detail, fmt.Sprintf("block %d returns %s", syncEdge.Index, describe(ret.Results[0])))
+				detail = append(detail, fmt.Sprintf("block %d returns %s", syncEdge.Index, describe(rv)))
 				continue
 			}
 			ia, isIA := ld.X.(*ssa.IndexAddr)
@@ -3400,7 +3441,13 @@ func ruleSyncJoinsItsInputs(c *Ctx, rule string) {
 			if _, isParam := resolve(ia.X).(*ssa.Parameter); isParam {
 				continue
 			}
-			if ld.Block() != b && ld.Block() != syncEdge {
+			inPath := ld.Block() == b
+			for _, pb := range path {
+				if ld.Block() == pb {
+					inPath = true
+				}
+			}
+			if !inPath {
 				detail = append(detail, fmt.Sprintf("candidate loaded in block %d, tested in block %d", ld.Block().Index, b.Index))
 				continue
 			}
